@@ -160,7 +160,10 @@ def run_case(case):
         p = pch
         for r, (u, m), n in zip(refs, blocks, lengths):
             p *= pi_n(r, m, n)
+        last_pch[0] = pch
         return p
+
+    last_pch = [0.0]
 
     sample = None
     nmax = case["nmax"]
@@ -191,9 +194,12 @@ def run_case(case):
         else:
             st = stoch[0][1]
             variants = []
+            ends_used = {}
             for e_out in [t for t in st.ends if t.descriptors()[0][0].sym == "<"]:
                 for e_in in [t for t in st.ends if t.descriptors()[0][0].sym == ">"]:
-                    variants.append(e_in.atoms[0].atom + blocks[0][0] * lengths[0] + e_out.atoms[0].atom)
+                    v = e_in.atoms[0].atom + blocks[0][0] * lengths[0] + e_out.atoms[0].atom
+                    variants.append(v)
+                    ends_used[v] = (e_in, e_out)
             variants = variants[:2]
         for smi in variants:
             mol = parse_keep_h(smi)
@@ -201,6 +207,7 @@ def run_case(case):
                 continue
             canon = Chem.MolToSmiles(mol)
             want = reference(lengths, canon)
+            pch_of_query = last_pch[0]
             if want is None:
                 cnt["reference_undecided"] += 1
                 decided_all = False
@@ -223,42 +230,59 @@ def run_case(case):
                 cls = "c19.value-differs"
                 if got == 0.0 and want > 0:
                     cls = "c19.ensemble-member-gets-zero"
+                # Listed mechanisms predict the library's value exactly, alone or composed:
+                #  (g) a single-unit block under a gauss law is evaluated on the interval (0, m] instead of (-inf, m];
+                #  (s) prefix start, suffix with the same atoms as the last block's unit: the reading "one more unit and no suffix" is added;
+                #  (w) end-group start with several end groups of one direction: the partner's weight is normalised within the candidate
+                #      token (factor 1 for a one-descriptor end group): pi_n x (P_start(head group) x [cap possible] + P_start(tail group));
+                #  (a) the result is multiplied by the number of automorphisms of the query molecule.
                 autos = len(mol.GetSubstructMatches(mol, uniquify=False, maxMatches=64))
-                if autos > 1 and want > 0 and abs(got - autos * want) <= 1e-12 + fam_tol * abs(got):
-                    cls = "c19.value-multiplied-by-automorphism-count"
-                if cls == "c19.value-differs" and start == "end":
-                    syms = [t.descriptors()[0][0].sym for t in stoch[0][1].ends]
+
+                def lib_pi(e, r, m, n):
+                    return (r.cdf(m) - r.cdf(0.0)) if (e.dist.family == "gauss" and n == 1) else pi_n(r, m, n)
+
+                def near(x, y):
+                    return abs(x - y) <= 1e-12 + max(fam_tol, 1e-9) * max(abs(x), abs(y))
+
+                pch = pch_of_query  # probability of the choice sequences that build this molecule (targets permitting); 1 for prefix chains
+                g_used = any(e.dist.family == "gauss" and n == 1 for (i, e), n in zip(stoch, lengths))
+                cands = []  # (predicted value, class when it matches with multiplicity 1)
+                readings = [tuple(lengths)]
+                if start == "prefix" and gen.parse_fragment(tail).to_text() == blocks[-1][0]:
+                    readings.append(tuple(lengths[:-1]) + (lengths[-1] + 1,))
+                parts = []
+                for R in readings:
+                    p = pch
+                    for (i, e), r, (u, m), n in zip(stoch, refs, blocks, R):
+                        p *= lib_pi(e, r, m, n)
+                    parts.append(p)
+                if g_used:
+                    cands.append((parts[0], "c19.value-differs.gauss-single-unit-omits-negative-targets"))
+                if len(parts) > 1 and parts[1] > tol:
+                    cands.append((sum(parts), "c19.value-differs.chain-end-unit-without-suffix-also-matched"))
+                if start == "end":
+                    ends_all = stoch[0][1].ends
+                    syms = [t.descriptors()[0][0].sym for t in ends_all]
                     if len(syms) != len(set(syms)):
-                        # mechanism feature: a capping choice between several compatible end groups exists
-                        cls = "c19.value-differs.partner-weight-normalised-within-candidate-token"
+                        ps = dict((id(t), p) for t, p in model.weighted([(t, t.descriptors()[0][0].eff_weight) for t in ends_all]))
+                        e_in, e_out = ends_used[smi]
+                        pin = lib_pi(stoch[0][1], refs[0], blocks[0][1], lengths[0])
+                        # a zero-weight cap next to a positive-weight competitor is never taken (also by the library): only the other start path
+                        w_out = e_out.descriptors()[0][0].eff_weight
+                        others_out = [t.descriptors()[0][0].eff_weight for t in ends_all if t is not e_out and t.descriptors()[0][0].sym == "<"]
+                        cap_out = 0.0 if (w_out == 0.0 and any(w > 0 for w in others_out)) else (1.0 / (1 + len(others_out)) if w_out == 0.0 else 1.0)
+                        cands.append(((ps.get(id(e_in), 0.0) * cap_out + ps.get(id(e_out), 0.0)) * pin, "c19.value-differs.partner-weight-normalised-within-candidate-token"))
                 if cls == "c19.value-differs":
-                    # two listed mechanisms, alone or together, predict the library's value exactly:
-                    #  (g) a single-unit block under a gauss law is evaluated on the interval (0, m] instead of (-inf, m];
-                    #  (s) when the suffix has the same atoms as the last block's unit, the search also accepts the reading
-                    #      "one more unit and no suffix" (a unit with an unmatched descriptor at the chain end)
-                    base = 1.0
-                    for r, (u, m), n in zip(refs, blocks, lengths):
-                        base *= pi_n(r, m, n)
-                    pch = want / base if base > 0 else 0.0
-                    readings = [tuple(lengths)]
-                    if start == "prefix" and gen.parse_fragment(tail).to_text() == blocks[-1][0]:
-                        readings.append(tuple(lengths[:-1]) + (lengths[-1] + 1,))
-                    parts, g_used = [], False
-                    for R in readings:
-                        p = pch
-                        for (i, e), r, (u, m), n in zip(stoch, refs, blocks, R):
-                            if e.dist.family == "gauss" and n == 1:
-                                p *= r.cdf(m) - r.cdf(0.0)
-                                g_used = True
-                            else:
-                                p *= pi_n(r, m, n)
-                        parts.append(p)
-                    pred = sum(parts)
-                    if abs(got - pred) <= 1e-12 + max(fam_tol, 1e-9) * max(abs(got), abs(pred)):
-                        if len(parts) > 1 and parts[1] > tol:
-                            cls = "c19.value-differs.chain-end-unit-without-suffix-also-matched"
-                        elif g_used:
-                            cls = "c19.value-differs.gauss-single-unit-omits-negative-targets"
+                    if autos > 1 and want > 0 and near(got, autos * want):
+                        cls = "c19.value-multiplied-by-automorphism-count"
+                    else:
+                        for pred, c in cands:
+                            if pred > 0 and near(got, pred):
+                                cls = c
+                                break
+                            if pred > 0 and autos > 1 and near(got, autos * pred):
+                                cls = "c19.value-multiplied-by-automorphism-count"
+                                break
                 viol.append({"cls": cls, "msg": f"P({smi}) = {got!r}, generation produces it with probability {want!r} (block lengths {lengths})", "text": text, "smiles": smi, "lengths": lengths})
             if max(lengths) >= 2:
                 # (2) atom-order independence
@@ -334,7 +358,9 @@ def run_case(case):
                             for (i, e), r, (u, m), n in zip(stoch, refs, blocks, ls):
                                 p *= (r.cdf(m) - r.cdf(0.0)) if (e.dist.family == "gauss" and n == 1) else pi_n(r, m, n)
                             pred += p
-                    if pred > 0 and abs(got - pred) <= 1e-12 + max(fam_tol, 1e-9) * max(got, pred):
+                    mo = parse_keep_h(smi)
+                    autos_o = len(mo.GetSubstructMatches(mo, uniquify=False, maxMatches=64))
+                    if pred > 0 and any(abs(got - k * pred) <= 1e-12 + max(fam_tol, 1e-9) * max(got, k * pred) for k in {1, autos_o}):
                         cls += ".chain-end-unit-without-suffix-also-matched"
                 viol.append({"cls": cls, "msg": f"P({smi}) = {got!r} although generation can never produce it", "text": text, "smiles": smi})
     cnt.update(trace.take_counters())
